@@ -1011,7 +1011,9 @@ def compare_tensor(out, tag, klass, res, ref, info):
         target = qq.clamp(G[0], G[-1])
         if info.get("nosat"):
             target = qq  # the result carries its own scale: nothing may saturate
-        tol = step + 2 * (target.abs() * u + eta) + 1e-300
+        # (a scale in the subnormal range of its dtype is only representable to eta / 2: seen from the codes, that is a relative
+        # error of eta / (2 scale) on every value -- the same allowance as for rescaling operations)
+        tol = step + 2 * (target.abs() * u + eta) + target.abs() * eta / s.abs().clamp_min(1e-300) + 1e-300
         bad = ~((c - target).abs() <= tol)
         if bool(bad.any()):
             i = int(torch.nonzero(bad.reshape(-1))[0])
@@ -1022,7 +1024,9 @@ def compare_tensor(out, tag, klass, res, ref, info):
         K = info["K"]
         tol = (K + 4) * u * mag + 3 * u * ref64.abs() + eta  # (no allowance for a scale product formed in reduced precision, D46)
         # (representable: also every partial sum, whatever the order of the accumulation)
-        fin = torch.maximum(ref64.abs(), mag) + tol < gen.FMAX.get(dtype, 1e300)
+        # ... with the head-room of the unscaled integer codes (operands holding finfo.min mask values are within 1 % of the end
+        # of the range: the kernels sum activation x code products before the scale is applied, C07 judges that in its own terms)
+        fin = torch.maximum(ref64.abs(), mag) * 128 + tol < gen.FMAX.get(dtype, 1e300)
         bad = fin & ~((d64 - ref64).abs() <= tol)
         if bool(bad.any()):
             i = int(torch.nonzero(bad.reshape(-1))[0])
